@@ -1,10 +1,13 @@
 (* C46: xDS routing selects the right virtual host, route and cluster.
    Theorems only; each is closed by [exact] of a lemma from proof/XdsRoute_proofs.v.
    Strings are byte lists; metadata is the list of (key, value) pairs in append order;
-   xxhash is an arbitrary function H. *)
+   xxhash is an arbitrary function H and the hash-policy regex rewrite
+   (regexp ReplaceAllString) an arbitrary function RW. *)
 From Coq Require Import List ZArith Bool.
 From VLib Require Import Codec Machine.
+From VModel Require Matchers.
 From VModel Require Import XdsRoute.
+From VProof Require Matchers_proofs.
 From VProof Require Import XdsRoute_proofs.
 Import ListNotations.
 Open Scope Z_scope.
@@ -53,23 +56,26 @@ Print Assumptions C46_vhost_checker.
 
 (* "and the first route whose path, header and runtime-fraction matchers all match":
    a successful SelectConfig (code 0) used route i = the first route that matches the
-   metadata used for matching, that route is a forwarding route, the cluster j is the
-   weighted pick for the draw w and the hash is generateHash of the route's policies *)
-Theorem C46_route : forall H chan rs m em ex method t w i j g h,
-  select H chan rs m em ex method t w = [0; i; j; g; h] ->
+   metadata used for matching, that route is a forwarding route, the "cluster" is either
+   the weighted pick j for the draw w, or - for a route naming a cluster specifier plugin -
+   the plugin (j = -1, name reported), and the hash is generateHash of the route's policies *)
+Theorem C46_route : forall H RW chan rs m em ex method t w i j g h tail,
+  select H RW chan rs m em ex method t w = 0 :: i :: j :: g :: h :: tail ->
   exists pre r post, rs = pre ++ r :: post /\ i = Z.of_nat (length pre) /\
     route_match r method (match_md m em ex) t = true /\
     (forall r', In r' pre -> route_match r' method (match_md m em ex) t = false) /\
-    r_action r = 1 /\ wrr_pick (r_ws r) w = Some j /\
-    g = b2z (snd (gen_hash H chan m (if ex then em else []) (r_pols r))) /\
-    (g = 1 -> h = i64 (fst (gen_hash H chan m (if ex then em else []) (r_pols r)))).
+    r_action r = 1 /\
+    ((r_plugin r = [] /\ wrr_pick (r_ws r) w = Some j /\ tail = []) \/
+     (r_plugin r <> [] /\ j = -1 /\ tail = put_bytes (r_plugin r))) /\
+    g = b2z (snd (gen_hash H RW chan m (if ex then em else []) (r_pols r))) /\
+    (g = 1 -> h = i64 (fst (gen_hash H RW chan m (if ex then em else []) (r_pols r)))).
 Proof. exact select_ok_spec. Qed.
 Print Assumptions C46_route.
 
 (* no route matches  <->  "no matched route was found" *)
-Theorem C46_no_route : forall H chan rs m em ex method t w,
+Theorem C46_no_route : forall H RW chan rs m em ex method t w,
   (forall r, In r rs -> route_match r method (match_md m em ex) t = false) <->
-  select H chan rs m em ex method t w = [1; 0; 0; 0; 0].
+  select H RW chan rs m em ex method t w = [1; 0; 0; 0; 0].
 Proof. exact select_none_spec. Qed.
 Print Assumptions C46_no_route.
 
@@ -81,11 +87,32 @@ Theorem C46_route_match : forall r method m t,
 Proof. exact route_match_spec. Qed.
 Print Assumptions C46_route_match.
 
-Theorem C46_path_match : forall r method, r_ci r = false ->
-  (r_pkind r = 1 -> (path_match r method = true <-> method = r_path r)) /\
-  (r_pkind r <> 1 -> (path_match r method = true <-> exists rest, method = r_path r ++ rest)).
+Theorem C46_path_match : forall r method,
+  (r_pkind r = 2 -> (path_match r method = true <-> Matchers_proofs.lang (r_re r) method)) /\
+  (r_ci r = false -> r_pkind r = 1 -> (path_match r method = true <-> method = r_path r)) /\
+  (r_ci r = false -> r_pkind r <> 1 -> r_pkind r <> 2 ->
+     (path_match r method = true <-> exists rest, method = r_path r ++ rest)).
 Proof. exact path_match_spec. Qed.
 Print Assumptions C46_path_match.
+
+(* the header matchers of a route are exactly those of C47 (all kinds: string matchers with
+   ignore_case, range, present, regex; theorems C47_header_* of props/C47.v), evaluated on
+   the metadata grouped by key: each key maps to its values in order ... *)
+Theorem C46_header_matchers_are_C47 : forall h m,
+  hdr_match h m =
+  (if h_kind h =? 11 then Matchers.hdr_regex_eval (h_inv h) (h_name h) (h_re h) (to_mdt m)
+   else Matchers.hdr_eval Matchers.tl true (h_kind h) (h_inv h) (h_a h) (h_b h) (h_name h) (h_arg h) (to_mdt m)) /\
+  forall k, Matchers.md_get (to_mdt m) k = match vals m k with [] => None | vs => Some vs end.
+Proof. intros h m. split; [reflexivity | exact (to_mdt_get m)]. Qed.
+Print Assumptions C46_header_matchers_are_C47.
+
+(* ... e.g. composed with C47_header_exact_prefix_suffix_contains *)
+Theorem C46_header_simple : forall h m, 1 <= h_kind h <= 4 ->
+  (hdr_match h m = true <->
+   vals m (h_name h) <> [] /\
+   (Matchers_proofs.cmpP (h_kind h) (h_arg h) (Matchers.join (vals m (h_name h))) <-> h_inv h = false)).
+Proof. exact hdr_match_simple. Qed.
+Print Assumptions C46_header_simple.
 
 (* "The cluster is chosen among the route's weighted clusters in proportion to their
    weights": for every value w of the random source the pick is the cluster whose
@@ -104,26 +131,49 @@ Print Assumptions C46_cluster.
 (* "the request hash depends only on the configured hash-policy inputs": it is the
    rotate-left-xor fold of the per-policy hashes up to the first terminal policy that
    produced one (generated = some policy produced one) ... *)
-Theorem C46_hash_fold : forall H chan m em ps,
-  gen_hash H chan m em ps =
-  (fold_left mix (eff H chan m em ps) 0, negb (is_nil (eff H chan m em ps))).
+Theorem C46_hash_fold : forall H RW chan m em ps,
+  gen_hash H RW chan m em ps =
+  (fold_left mix (eff H RW chan m em ps) 0, negb (is_nil (eff H RW chan m em ps))).
 Proof. exact gen_hash_fold. Qed.
 Print Assumptions C46_hash_fold.
 
 (* ... so two RPCs whose metadata give the same values for every non-"-bin" header named
-   by a HEADER policy get the same hash (channel id and policy list being the same) *)
-Theorem C46_hash_inputs_only : forall H ps chan m em m' em',
+   by a HEADER policy get the same hash (channel id and policy list, incl. the regex
+   rewrites, being the same) *)
+Theorem C46_hash_inputs_only : forall H RW ps chan m em m' em',
   (forall p, In p ps -> p_chan p = false -> suffixb dashbin (p_name p) = false ->
      hash_values m em (p_name p) = hash_values m' em' (p_name p)) ->
-  gen_hash H chan m em ps = gen_hash H chan m' em' ps.
+  gen_hash H RW chan m em ps = gen_hash H RW chan m' em' ps.
 Proof. exact gen_hash_inputs_only. Qed.
 Print Assumptions C46_hash_inputs_only.
 
-Theorem C46_hash_terminal : forall H pre p post chan m em,
-  p_term p = true -> pol_hash H chan m em p <> None ->
-  gen_hash H chan m em (pre ++ p :: post) = gen_hash H chan m em (pre ++ [p]).
+(* the hash of one policy: channel id; or xxhash of the (regex-rewritten) joined values,
+   extra metadata taking precedence; None for "-bin" headers and absent headers *)
+Theorem C46_policy_hash : forall H RW chan m em p,
+  pol_hash H RW chan m em p =
+  if p_chan p then Some chan else
+  if suffixb dashbin (p_name p) then None else
+  match hash_values m em (p_name p) with
+  | [] => None
+  | vs => Some (H (match p_re p with Some (re, sub) => RW re sub (join vs) | None => join vs end))
+  end.
+Proof. reflexivity. Qed.
+Print Assumptions C46_policy_hash.
+
+Theorem C46_hash_terminal : forall H RW pre p post chan m em,
+  p_term p = true -> pol_hash H RW chan m em p <> None ->
+  gen_hash H RW chan m em (pre ++ p :: post) = gen_hash H RW chan m em (pre ++ [p]).
 Proof. exact gen_hash_terminal. Qed.
 Print Assumptions C46_hash_terminal.
+
+(* note, consistent with the statement (the hash still depends only on policy inputs): a
+   policy that yields no hash for this RPC is skipped entirely - even a TERMINAL one after a
+   hash has been generated does not stop the fold (Envoy would stop there) *)
+Theorem C46_hash_noop_policy_note : forall H RW pre p post chan m em,
+  pol_hash H RW chan m em p = None ->
+  gen_hash H RW chan m em (pre ++ p :: post) = gen_hash H RW chan m em (pre ++ post).
+Proof. exact gen_hash_noop_policy. Qed.
+Print Assumptions C46_hash_noop_policy_note.
 
 (* "a runtime fraction of f per million matches exactly f of the million possible random
    draws (so 0 never matches)": the code matches the draws t <= f, i.e. min(f+1, 10^6)
@@ -166,3 +216,10 @@ Example C46_witness :
   run [7] [[10;0;0;1;5;1;1;47]; [12;3]; [12;2]; [13;1;0;0]; [3;5;4;2;47;120]; [2;5;6]]
     = Some [[]; []; []; []; [0;0;1;1;7]; [0]].
 Proof. vm_compute. repeat split. Qed.
+
+(* a plugin route with a regex path, a regex header matcher and a rewritten hash input *)
+Example C46_witness_plugin :
+  run [7] [[9;0;0;1; 3;1;47;5;2]; [19;1;112]; [8;0;1;107; 3;1;97;5;2]; [13;0;0;1;107]; [18;1;97;1;88];
+           [20;1;107;2;97;98]; [25;1;97;1;88;2;97;98;2;88;98]; [24;5;2;88;98]; [3;0;0;2;47;120]]
+    = Some [[]; []; []; []; []; []; [2;88;98]; [5]; [0;0;-1;1;5;1;112]].
+Proof. vm_compute. reflexivity. Qed.
